@@ -136,7 +136,11 @@ def drive_buffered(proto, stream: bytes, fills: list[int], hint: int, lines: lis
     if not fills:
         fills = [1 << 30]
     while i < len(stream):
-        view = memoryview(consumer.get_write_buffer())
+        try:
+            view = memoryview(consumer.get_write_buffer())
+        except RuntimeError:
+            lines.append("crashed")     # "The start position is set to the end of the buffer"
+            return consumer
         room = view.nbytes
         lines.append(f"room {room}")
         n = max(1, min(fills[k % len(fills)], room, len(stream) - i))
